@@ -307,7 +307,7 @@ def run(chk, repo, tier):
                  what='membership uses the contents dictionary')
     # ---- R19.6 malformed names raise the group syntax error ------------------------
     from . import c09
-    c09.exception_arity(chk, repo, 'R19.6', [GRP, LIB], minimum=2)
+    c09.exception_arity(chk, repo, 'R19.6', [GRP, LIB], minimum=1)
     from .. import reviewed
     for q in ('GroupMissingDataError.__init__',):
         reviewed.check(chk, 'R19.6', repo, 'pgradd/Error.py', q,
